@@ -97,7 +97,7 @@ func rulePkgTwins(prog *Program, rep *Report, relA, relB string, floor int) {
 // the conditions under which a twin skips a member (`if cond { continue }`) are the same
 // multiset in both.
 func ruleTightAppendTwins(prog *Program, rep *Report, rels ...string) {
-	rep.Rules = append(rep.Rules, "K-omitguards: the compact and the indented emitter of one writer for the same kind of value (tightX / appendX) skip members under the same conditions (multiset of the conditions of `if cond { continue }`): what is omitted does not depend on the layout")
+	rep.Rules = append(rep.Rules, "K-omitguards: the compact and the indented emitter of one writer for the same kind of value (tightX / appendX) skip members under the same conditions (multiset of the conditions of `if cond { continue }`) and test reflected kinds with the same conditions (if-conditions that call Kind()): what is omitted, and which values take a special path, does not depend on the layout")
 	pairs := 0
 	for _, rel := range rels {
 		pk := prog.Pkg(rel)
@@ -127,6 +127,8 @@ func ruleTightAppendTwins(prog *Program, rep *Report, rels ...string) {
 					}
 					if br, ok := is.Body.List[len(is.Body.List)-1].(*ast.BranchStmt); ok && br.Tok == token.CONTINUE {
 						g = append(g, strings.ReplaceAll(types.ExprString(is.Cond), " ", ""))
+					} else if c := strings.ReplaceAll(types.ExprString(is.Cond), " ", ""); strings.Contains(c, ".Kind()") {
+						g = append(g, "kind:"+c) // which reflected kinds take a special path ([]byte as bytes, pointers followed)
 					}
 					return true
 				})
@@ -168,4 +170,6 @@ func ruleTightAppendTwins(prog *Program, rep *Report, rels ...string) {
 }
 
 // omitGuardAccepted: key -> {only in the compact twin, only in the indented twin, reason}.
-var omitGuardAccepted = map[string][3]string{}
+var omitGuardAccepted = map[string][3]string{
+	"oj.tightSlice=appendSlice": {"kind:rm.Kind()==reflect.Ptr&&!rm.IsNil()", "", "the compact emitter follows a non-nil pointer element itself (added with the nil-element repair); the indented one hands the pointer to appendJSON, whose default arm follows it: same text"},
+}
